@@ -32,6 +32,7 @@ from isla.solver import (ISLaSolver, CostSettings, CostWeightVector,
                          GrammarBasedBlackboxCostComputer)
 from grammar_graph import gg
 import z3
+from returns.maybe import Some
 
 import isla_formalizations.csv as csvf
 
@@ -59,26 +60,44 @@ def csv_equal_columns(s):
 
 
 def check_xml(s):
+    import re
     import xml.etree.ElementTree as ET
     try:
-        ET.fromstring(s)
-    except Exception as e:  # ParseError: mismatched tag, unbound prefix, duplicate attribute, ...
+        ET.fromstring(s)   # expat: mismatched tag, unbound prefix, duplicate attribute, ...
+    except Exception as e:
         return f"xml.etree: {e}"
-    # independent of expat: tag balance by a stack over the raw text
-    stack, i = [], 0
+    # independent of expat: tag balance, attribute uniqueness and namespace binding by a stack over
+    # the raw text (attribute values of the shipped grammar contain neither '<', '>' nor a raw '"')
+    stack, i = [], 0   # entries: (tag name, set of prefixes declared on that element)
     while i < len(s):
-        if s[i] == "<":
-            j = s.index(">", i)
-            body = s[i + 1:j]
-            if body.startswith("/"):
-                if not stack or stack.pop() != body[1:]:
-                    return f"close tag {body!r} does not match"
-            elif not body.endswith("/"):
-                stack.append(body.split(" ")[0])
-            i = j + 1
-        else:
+        if s[i] != "<":
             i += 1
-    return None if not stack else f"unclosed {stack}"
+            continue
+        j = s.index(">", i)
+        body = s[i + 1:j]
+        i = j + 1
+        if body.startswith("/"):
+            if not stack or stack.pop()[0] != body[1:]:
+                return f"close tag {body!r} does not match"
+            continue
+        selfclosing = body.endswith("/")
+        if selfclosing:
+            body = body[:-1]
+        name, _, rest_ = body.partition(" ")
+        attrs = re.findall(r'([^\s="]+)="([^"]*)"', rest_)
+        names = [a for a, _ in attrs]
+        if len(set(names)) != len(names):
+            return f"attribute defined twice in <{name}>"
+        declared = {a.split(":", 1)[1] for a in names if a.startswith("xmlns:")}
+        scope = set(declared).union(*[d for _, d in stack]) if stack else set(declared)
+        used = [name] + [a for a in names if not a.startswith("xmlns:")]
+        for u in used:
+            if ":" in u and u.split(":", 1)[0] not in scope | {"xml"}:
+                return (f"prefix {u.split(':', 1)[0]!r} of {u!r} is not bound by an xmlns declaration on "
+                        f"the element or an ancestor")
+        if not selfclosing:
+            stack.append((name, declared))
+    return None if not stack else f"unclosed {[n for n, _ in stack]}"
 
 
 def check_rest(s, tree):
@@ -100,7 +119,7 @@ def check_rest(s, tree):
     return None
 
 
-def check_tar(s):
+def check_tar(s, min_entries=1):
     """simple_tar layout: name(100) checksum(8) typeflag(1) linkname(100) 'CONTENT', repeated"""
     b = s.encode("latin-1")
     entries, i = [], 0
@@ -124,8 +143,8 @@ def check_tar(s):
             return f"typeflag {flag!r}"
         entries.append((name.rstrip(b"\x00"), flag, link.rstrip(b"\x00")))
         i += 216
-    if not entries:
-        return "no entry"
+    if len(entries) < min_entries:
+        return f"{len(entries)} entries, scaffold has {min_entries}"
     # The property names checksums and field encodings only.  A symbolic link whose target field is
     # all NUL satisfies the shipped link_constraint vacuously (the <nuls> alternative has no
     # <file_name_str> to quantify over); that is noted in design_notes/C21.md, not reported.
@@ -214,6 +233,52 @@ def gen_csv_string(rng):
         n = ncol if equal else rng.randint(1, 4)
         lines.append(";".join(rng.choice(FIELD_POOL) for _ in range(n)) + "\n")
     return "".join(lines)
+
+
+def clone_tree(n):
+    """same structure, fresh node ids"""
+    return DerivationTree(n.value, None if n.children is None else [clone_tree(c) for c in n.children])
+
+
+def xml_scaffold(grammar, text):
+    t = DerivationTree.from_parse_tree(next(EarleyParser(grammar).parse(text)))
+
+    def go(n):
+        if n.value == "<xml-attribute>" or n.children is None:
+            return DerivationTree(n.value, None)
+        return DerivationTree(n.value, [go(c) for c in n.children])
+    return go(t)
+
+
+def tar_archive(entries):
+    def go(es):
+        return DerivationTree("<entries>", [es[0]] if len(es) == 1 else [es[0], go(es[1:])])
+    return DerivationTree("<start>", [go(entries)])
+
+
+def tar_scaffold_trees(rng, grammar, formula, broken):
+    """[two open entries; two closed entries with identical text whose checksum is stale; three entries:
+    the identical pair + one open]"""
+    out = [tar_archive([DerivationTree("<entry>", None), DerivationTree("<entry>", None)])]
+    try:
+        seed_global(rng)
+        solver = ISLaSolver(grammar, formula, max_number_free_instantiations=1,
+                            max_number_smt_instantiations=1, timeout_seconds=10)
+        base = solutions(solver, 3, 10)
+        entries = [o.filter(lambda n: n.value == "<entry>")[0][1] for o in base]
+        for donor in entries[1:]:
+            e = entries[0]
+            p = e.filter(lambda n: n.value == "<checksum>")[0][0]
+            d = donor.filter(lambda n: n.value == "<checksum>")[0][1]
+            if str(d) != str(e.get_subtree(p)):
+                stale = e.replace_path(p, clone_tree(d))
+                out.append(tar_archive([clone_tree(stale), clone_tree(stale)]))
+                out.append(tar_archive([clone_tree(stale), DerivationTree("<entry>", None), clone_tree(stale)]))
+                break
+    except Exception as e:  # noqa
+        broken.append({"obligation": "building TAR scaffolds (ISLaSolver on simple_tar raised)",
+                       "detail": repr(e)})
+    return out
 
 
 def seed_global(rng):
@@ -408,9 +473,14 @@ def run(run):
             seed_global(rng)
             cfg = dict(cfg)
             wv = cfg.pop("wv", None)
+            n_i, budget_i = cfg.pop("n", nsol), cfg.pop("budget", budget)
+            scaffold = cfg.pop("scaffold", None)
+            if scaffold is not None:
+                cfg["initial_tree"] = Some(scaffold)
+                search_hist[name + "_scaffolds"] = search_hist.get(name + "_scaffolds", 0) + 1
             try:
-                solver = make_solver(grammar, formula, wv, timeout_seconds=budget, **cfg)
-                sols = solutions(solver, nsol, budget)
+                solver = make_solver(grammar, formula, wv, timeout_seconds=budget_i, **cfg)
+                sols = solutions(solver, n_i, budget_i)
             except Exception as e:  # noqa
                 broken.append({"obligation": f"ISLaSolver on the shipped {name} formalization raised",
                                "detail": {"config": i, "error": repr(e)}})
@@ -422,30 +492,54 @@ def run(run):
                 why = checker(s, t)
                 if why:
                     failing.append({"formalization": name, "source": "solver", "text": s, "why": why,
-                                    "config": i})
+                                    "config": i, "initial_tree": None if scaffold is None else str(scaffold)})
                 if found == 3:
                     run.sample({"formalization": name, "text": s[:120], "check": why or "valid"})
-        search_hist[name] = found
+        search_hist[name] = search_hist.get(name, 0) + found
 
     try:
         from isla_formalizations import xml_lang, rest, simple_tar
         wvs = weight_vectors()
-        search("xml", xml_lang.XML_GRAMMAR_WITH_NAMESPACE_PREFIXES,
-               xml_lang.XML_NAMESPACE_CONSTRAINT & xml_lang.XML_WELLFORMEDNESS_CONSTRAINT
-               & xml_lang.XML_NO_ATTR_REDEF_CONSTRAINT, lambda s, t: check_xml(s),
+        xml_g = xml_lang.XML_GRAMMAR_WITH_NAMESPACE_PREFIXES
+        xml_f = (xml_lang.XML_NAMESPACE_CONSTRAINT & xml_lang.XML_WELLFORMEDNESS_CONSTRAINT
+                 & xml_lang.XML_NO_ATTR_REDEF_CONSTRAINT)
+        search("xml", xml_g, xml_f, lambda s, t: check_xml(s),
                [dict(wv=wvs[1], k=4, max_number_free_instantiations=1, enforce_unique_trees_in_queue=True)]
                + ([dict(max_number_free_instantiations=2)] if thorough else []))
-        search("rest", rest.REST_GRAMMAR,
-               rest.LENGTH_UNDERLINE & rest.DEF_LINK_TARGETS & rest.NO_LINK_TARGET_REDEF
-               & rest.LIST_NUMBERING_CONSECUTIVE, check_rest,
+        # scaffolds (initial_tree): prefixed elements with attribute slots at several depths, so that the
+        # existential "some enclosing element declares the prefix" is solved in a tree that already has
+        # descendants with attributes.  Texts are parsed, then every <xml-attribute> is re-opened.
+        xml_texts = ['<a:b><c q="0">x</c></a:b>', '<a:b q="0"><c q="0">x</c></a:b>',
+                     '<r q="0"><a:b><c q="0">x</c></a:b></r>', '<r q="0"><a:b q="0"><c:d q="0"/></a:b></r>']
+        if thorough:
+            xml_texts += ['<a:b q="0"><c q="0"><d q="0">x</d></c></a:b>', '<r><a:b q="0">x</a:b><c q="0"/></r>',
+                          '<a:b q="0"><a:c q="0"/><d q="0">x</d></a:b>']
+        search("xml", xml_g, xml_f, lambda s, t: check_xml(s),
+               [dict(scaffold=xml_scaffold(xml_g, txt), n=6 if thorough else 3,
+                     budget=20 if thorough else 5, max_number_free_instantiations=1)
+                for txt in xml_texts])
+
+        rest_f = (rest.LENGTH_UNDERLINE & rest.DEF_LINK_TARGETS & rest.NO_LINK_TARGET_REDEF
+                  & rest.LIST_NUMBERING_CONSECUTIVE)
+        search("rest", rest.REST_GRAMMAR, rest_f, check_rest,
                [dict(wv=wvs[2], k=4, max_number_free_instantiations=1, max_number_smt_instantiations=1,
-                     enforce_unique_trees_in_queue=True)]
+                     enforce_unique_trees_in_queue=True),
+                # auxiliary solutions of the unsat machinery must not leak into the output stream
+                dict(activate_unsat_support=True, max_number_free_instantiations=2,
+                     max_number_smt_instantiations=2, n=nsol, budget=budget)]
                + ([dict(max_number_free_instantiations=1)] if thorough else []))
-        search("simple_tar", simple_tar.SIMPLE_TAR_GRAMMAR, simple_tar.TAR_CONSTRAINTS,
-               lambda s, t: check_tar(s),
-               [dict(max_number_free_instantiations=1, max_number_smt_instantiations=1,
-                     enforce_unique_trees_in_queue=False)]
-               + ([dict(wv=wvs[3], max_number_free_instantiations=2)] if thorough else []))
+
+        tar_g, tar_f = simple_tar.SIMPLE_TAR_GRAMMAR, simple_tar.TAR_CONSTRAINTS
+        tar_cfg = dict(max_number_free_instantiations=1, max_number_smt_instantiations=1,
+                       enforce_unique_trees_in_queue=False)
+        search("simple_tar", tar_g, tar_f, lambda s, t: check_tar(s),
+               [tar_cfg] + ([dict(wv=wvs[3], max_number_free_instantiations=2)] if thorough else []))
+        # archives with >= 2 entries (incl. two entries with IDENTICAL text and a stale checksum), each
+        # scaffold solved TWICE in this process (state kept between solver runs must not matter)
+        tar_scaffolds = tar_scaffold_trees(rng, tar_g, tar_f, broken)
+        search("simple_tar", tar_g, tar_f, lambda s, t: check_tar(s, min_entries=2),
+               [dict(tar_cfg, scaffold=sc, n=4 if thorough else 2, budget=30 if thorough else 8)
+                for sc in tar_scaffolds for _twice in (0, 1)])
     except Exception as e:  # noqa
         import traceback
         broken.append({"obligation": "search over XML/reST/TAR formalizations crashed",
